@@ -7,6 +7,7 @@ import Driver.Fanout
 import Driver.PubSub
 import Driver.ReqRep
 import Driver.PubClient
+import Driver.ReqClient
 
 /-! `drv`: one case per input line, one result per output line (see /verif/DESIGN.md, section 3.2). -/
 
@@ -20,6 +21,7 @@ def step (line : String) : String :=
   | "fan" :: rest => Driver.Fanout.run rest
   | "ps" :: rest => Driver.PubSub.run rest
   | "rr" :: rest => Driver.ReqRep.run rest
+  | "rq" :: rest => Driver.ReqClient.run rest
   | "pp" :: rest => Driver.PubClient.run rest
   | "ppx" :: rest => Driver.PubClient.run rest
   | "tn" :: rest => Driver.Topic.run "tn" rest
